@@ -98,6 +98,28 @@ def run(ctx):
         cases.append((cx, e, None, None))
     reqs = [{'ctx': G.feel(('ctx', cx)) if cx else '', 'e': G.feel(e), 'scope': True} for cx, e, _, _ in cases]
     impl = ctx.run_impl('feel', reqs, shards=16, timeout=2400)
+    # "the result depends only on the expression text and on the values bound to its free names": the same expression over a context
+    # extended with bindings of names that do not occur in it (law evaluated on the implementation's own answers)
+    used_all = set(G.NAMES)
+    ext_idx, ext_reqs = [], []
+    for i, (cx, e, key, _) in enumerate(cases):
+        if key is not None or i % 4:
+            continue
+        text = reqs[i]['e']
+        unused = [n for n in G.VARS if G.NAMES[n] not in text and all(n != k for k, _ in cx)]
+        if not unused:
+            continue
+        extra = tuple((n, gen.leaf(ctx.rng.choice(['num', 'str', 'lnum', 'ctx', 'fun1']), {})) for n in ctx.rng.sample(unused, min(len(unused), ctx.rng.choice([1, 2, 3]))))
+        cx2 = tuple(sorted(dict(list(cx) + list(extra)).items()))
+        ext_idx.append(i)
+        ext_reqs.append({'ctx': G.feel(('ctx', cx2)), 'e': text})
+    ext_impl = ctx.run_impl('feel', ext_reqs, shards=16, timeout=2400)
+    for i, rq2, r2 in zip(ext_idx, ext_reqs, ext_impl):
+        ctx.evaluations += 1
+        if 'v' in impl[i] and r2.get('v', 'missing') != impl[i]['v']:
+            ctx.violation('the value changes when names that do not occur in the expression are bound: %s without them, %s with them'
+                          % (json.dumps(impl[i]['v'])[:150], json.dumps(r2.get('v', r2))[:150]), {'ctx': rq2['ctx'], 'e': rq2['e'], 'ctx_without': reqs[i]['ctx']}, impl=r2, model=impl[i]['v'])
+    ctx.cov['free_name_independence_cases'] = len(ext_idx)
     model = ctx.run_model(HEADER, ['case [%s] %s' % ('; '.join('(%d%%N, %s)' % (n, G.coq(x)) for n, x in cx), G.coq(e)) for cx, e, _, _ in cases], shard_size=300)
     matrix, poisoned, nulls, errs = {}, 0, 0, 0
     for (cx, e, key, want), ri, rm, rq in zip(cases, impl, model, reqs):
